@@ -26,6 +26,7 @@ HARNESSES = [
     ("c16", "rcfork", ()),
     ("c19", "rcfork", ()),
     ("c18", "rcfork", ()),
+    ("c20", "rcfork", ()),
     ("c17a", "rcfork-tsan", (), "c17"),
     ("c17b", "rcfork-tsan", ("-DC17_PART_B=1",), "c17"),
     ("c04", "rcfork", ()),
@@ -106,7 +107,7 @@ def replay_one(ctx, path):
 
 
 # engine cfg.name -> source file name
-ALIASES = {"c18_snapshots": "c18", "c17_readers": "c17a", "c17_independent": "c17b", "c01_load": "c01", "c02_history": "c02", "c03_bitmap": "c03", "c05_xml": "c05", "c06_xmlmut": "c06", "c07_synthetic": "c07", "c08_restrict": "c08", "c09_helpers": "c09", "c10_binding": "c10", "c11_types": "c11", "c12_dup": "c12", "c13_distances": "c13", "c14_memattrs": "c14", "c15_cpukinds": "c15", "c16_diff": "c16", "c19_shmem": "c19", "c04_strings": "c04"}
+ALIASES = {"c18_snapshots": "c18", "c20_tools": "c20", "c17_readers": "c17a", "c17_independent": "c17b", "c01_load": "c01", "c02_history": "c02", "c03_bitmap": "c03", "c05_xml": "c05", "c06_xmlmut": "c06", "c07_synthetic": "c07", "c08_restrict": "c08", "c09_helpers": "c09", "c10_binding": "c10", "c11_types": "c11", "c12_dup": "c12", "c13_distances": "c13", "c14_memattrs": "c14", "c15_cpukinds": "c15", "c16_diff": "c16", "c19_shmem": "c19", "c04_strings": "c04"}
 
 
 def C01(ctx):
@@ -248,6 +249,13 @@ def C18(ctx):
     std_check(ctx, [dict(harness="c18", aliases=["c18_snapshots"], cases=(250, 9000), max_ops=40, worker_env=lambda w: {"VERIF_C18_OWNED": ",".join(owned[w])})])
 
 
+def C20(ctx):
+    tools = None
+    for t in V.TOOLS:
+        tools = os.path.dirname(V.ensure_tool(t))
+    std_check(ctx, [dict(harness="c20", aliases=["c20_tools"], cases=(900, 12000), max_ops=5, env={"VERIF_TOOLS_DIR": tools})])
+
+
 def C17(ctx):
     # two harnesses built against the ThreadSanitizer flavour of hwloc and of the engine; every case is a forked child, the first TSan report ends it
     std_check_parallel(ctx, [
@@ -284,4 +292,4 @@ def C10(ctx):
     ctx.extra["extra_assumptions"] = ["the live round trips (1 case in 8) depend on this sandbox: its kernel, cgroup configuration, allowed CPUs; the recording-mode part is machine independent"]
 
 
-PROPS = {"C01": C01, "C18": C18, "C17": C17, "C10": C10, "C19": C19, "C09": C09, "C11": C11, "C07": C07, "C06": C06, "C05": C05, "C16": C16, "C14": C14, "C13": C13, "C15": C15, "C08": C08, "C12": C12, "C02": C02, "C03": C03, "C04": C04}
+PROPS = {"C01": C01, "C18": C18, "C17": C17, "C20": C20, "C10": C10, "C19": C19, "C09": C09, "C11": C11, "C07": C07, "C06": C06, "C05": C05, "C16": C16, "C14": C14, "C13": C13, "C15": C15, "C08": C08, "C12": C12, "C02": C02, "C03": C03, "C04": C04}
